@@ -71,6 +71,11 @@ def cases(tier, seed):
                                            "hydrogens": ["none", "none", "some", "side"]}):
         spec["kind"] = "run"
         out.append(spec)
+    # long stretches / whole chains of the real proteins
+    for spec in workload.long_cases(seed, 7 if tier == "quick" else 420, opts_fn=opts,
+                                    long_max=150 if tier == "quick" else 400):
+        spec["kind"] = "run"
+        out.append(spec)
     import random
     nstress = 40 if tier == "quick" else 5000
     rng = random.Random(seed * 79 + 5)
